@@ -1,5 +1,6 @@
 import CaresLemmas.ChanSockFrame
 import CaresLemmas.ChanSockAnswer
+import CaresLemmas.ChanAlignTrace
 /-!
 # C20 — the outcome does not depend on how the transport chops or delays bytes
 
@@ -236,5 +237,163 @@ example : (reads 5 (withStream t3 [1, 30, 1, 41, 1])).accepted = (reads 1 (withS
     (reads 5 (withStream t3 [1, 30, 1, 41, 1])).doneToks = [1, 2] := by decide
 /-- 31 of the first message's 32 bytes: nothing is delivered yet -/
 example : (reads 1 (withStream t3 [31, 43])).accepted = [] := by decide
+
+/-! ## whole runs: the TCP read alignment invariant and what reaches `process_answer`
+
+`Aligned s` (`CaresLemmas/ChanAlignRun.lean`): virtual-socket descriptors are below `nextFd`, every connection has a
+virtual socket, every socket's stream is well formed (`WfStream 0`, `slen` = end of the last message, `spos ≤ slen`), and
+for every TCP connection that is not being closed (`unlinked = false`) the position `spos - inBytes` up to which it has
+consumed its socket's stream is a message boundary (`Boundary`; equivalently it `Split`s the stream).
+`execH` (`ChanAlignLog.lean`) is `exec` instrumented with the list of `(descriptor, reply)` handed to `process_answer`.
+`RunH s t l` (`ChanAlignTrace.lean`): a run of completed top-level calls and environment steps from `s` to `t`, log `l`. -/
+
+/-- the invariant holds of a fresh channel -/
+theorem aligned_initially (s : St) (hc : s.conns = []) (hs : s.socks = []) : Aligned s := aligned_init s hc hs
+
+/-- **`aligned_preserved`**: every procedure, run to completion with any fuel, keeps the alignment invariant -/
+theorem aligned_preserved (fuel : Nat) (call : Call) (s : St) (h : Aligned s)
+    (hf : (exec fuel call s).1.outOfFuel = false) : Aligned (exec fuel call s).1 :=
+  exec_Aligned fuel call s h hf
+
+/-- … and so does the environment: the peer appending a message to a socket's stream, and everything that leaves the
+    connections and the `(fd, stream, slen, spos)` of the sockets alone (read-size scripts, EOF marks, the clock, …) -/
+theorem aligned_preserved_by_environment {t t' : St} (h : Aligned t) (he : EnvStep t t') : Aligned t' :=
+  aligned_env h he
+
+/-- the consumed position of an aligned live TCP connection `Split`s its stream (the hypothesis of
+    `read_segmentation_invariance_from`): what was taken lies before it, the rest follows it without gap -/
+theorem aligned_position_splits_stream {s : St} (h : Aligned s) {fd : Nat} {c : Conn} {v : VSock}
+    (hc : s.conn? fd = some c) (hv : s.sock? fd = some v) (ht : c.tcp = true) (hu : c.unlinked = false) :
+    c.inBytes ≤ v.spos ∧ ∃ done todo, Split v.stream (v.spos - c.inBytes) done todo :=
+  h.split hc hv ht hu
+
+/-- **frame**: a completed call that is not `read_conn_packets` / `read_answers` on `fd` leaves the inbound side of a
+    live connection `fd` as it was (and a connection live afterwards was live before: descriptors are not reused) -/
+theorem read_position_untouched_by_other_calls (fuel : Nat) (call : Call) (s : St) (h : Aligned s) (fd : Nat)
+    (hfd : fd < s.nextFd) (hcall : ¬ call.readsFd fd) (hf : (exec fuel call s).1.outOfFuel = false) {c' : Conn}
+    {v' : VSock} (hc' : (exec fuel call s).1.conn? fd = some c') (hv' : (exec fuel call s).1.sock? fd = some v')
+    (hu' : c'.unlinked = false) :
+    ∃ c v, s.conn? fd = some c ∧ s.sock? fd = some v ∧ c.unlinked = false ∧ vflag v' = vflag v ∧ rflag c' = rflag c :=
+  exec_read_frame fuel call s h fd hfd hcall hf hc' hv' hu'
+
+/-- the instrumented executor computes `exec` (kernel-checked link between the log and the model) -/
+theorem instrumented_executor_is_exec (fuel : Nat) (call : Call) (s : St) : (execH fuel call s).1 = exec fuel call s :=
+  execH_fst fuel call s
+
+/-- only the two read procedures hand anything to `process_answer`, and only for the descriptor they work on -/
+theorem only_read_calls_hand_over (fuel : Nat) (call : Call) (s : St) :
+    (∀ e ∈ (execH fuel call s).2, call.readsFd e.1 ∧ ∃ c, s.conn? e.1 = some c) ∧
+      ((∀ fd, ¬ call.readsFd fd) → (execH fuel call s).2 = []) :=
+  ⟨execH_log_mem fuel call s, execH_log_nil fuel call s⟩
+
+/-- **one completed `read_conn_packets`** on an aligned live TCP connection (`c` on socket `v`), whatever the scripted
+    read size: every reply handed to `process_answer` is for `fd`; if the connection is still live afterwards, the stream
+    is unchanged, and the messages that have arrived at the new consumed position are those that had arrived at the old
+    one followed by exactly the replies handed over, in order; and no complete message is left in in_buf -/
+theorem read_conn_packets_hands_stream_in_order (n : Nat) (s : St) (fd : Nat) (c : Conn) (v : VSock) (hal : Aligned s)
+    (hl : liveTcp s fd c v) (hf : (execH n (.processRead fd) s).1.1.outOfFuel = false) :
+    (∀ e ∈ (execH n (.processRead fd) s).2, e.1 = fd) ∧
+    ∀ c' v', (execH n (.processRead fd) s).1.1.conn? fd = some c' → (execH n (.processRead fd) s).1.1.sock? fd = some v' →
+      c'.unlinked = false →
+      c'.tcp = true ∧ v'.stream = v.stream ∧ v'.slen = v.slen ∧ v.spos ≤ v'.spos ∧
+      arrived v.stream (v'.spos - c'.inBytes) =
+        arrived v.stream (v.spos - c.inBytes) ++ (execH n (.processRead fd) s).2.map (·.2) ∧
+      nextTcpFrame v'.stream v'.spos c'.inBytes = none :=
+  processReadH_post n s fd c v hal hl hf
+
+/-- **`read_segmentation_invariance_run`** — the whole-run version of `read_segmentation_invariance`.  Take any run from
+    a fresh channel: completed top-level calls (anything but `read_answers` / `process_answer` themselves) interleaved
+    with the peer writing messages and the script choosing read sizes.  For every TCP connection `fd` that is live at
+    the end, the replies handed to `process_answer` on `fd` over the whole run (`logOn l fd`, in order) are exactly the
+    messages of the socket's stream whose last byte lies within the `spos` bytes read so far — whatever the sizes of
+    the individual reads; in particular they are a prefix of the messages the peer has written. -/
+theorem read_segmentation_invariance_run {s0 t : St} {l : HLog} (hr : RunH s0 t l) (hc : s0.conns = [])
+    (hs : s0.socks = []) (fd : Nat) (c : Conn) (v : VSock) (hl : liveTcp t fd c v) :
+    WfStream 0 v.stream ∧ logOn l fd = arrived v.stream v.spos ∧ logOn l fd <+: v.stream.map (·.2) := by
+  have inv := hr.inv (RunInv.init s0 hc hs)
+  obtain ⟨hc', hv', ht, hu⟩ := hl
+  have hso := inv.al.stream fd v hv'
+  have hal := inv.al.aligned fd c v hc' hv' ht hu
+  have h1 := inv.log fd c v ⟨hc', hv', ht, hu⟩
+  have h2 : arrived v.stream (v.spos - c.inBytes) = arrived v.stream v.spos :=
+    arrived_drained (x := vflag v) (y := rflag c) hso hal (inv.drained fd c v ⟨hc', hv', ht, hu⟩)
+  refine ⟨hso.wf, by rw [h1, h2], ?_⟩
+  rw [h1]
+  exact arrived_prefix v.stream 0 _ hso.wf
+
+/-- hence two runs — with different read sizes, different interleavings — that have read the same number of bytes of
+    the same stream have handed the same replies to `process_answer`, in the same order -/
+theorem read_segmentation_independent_run {s0 t s0' t' : St} {l l' : HLog} (hr : RunH s0 t l) (hr' : RunH s0' t' l')
+    (hc : s0.conns = []) (hs : s0.socks = []) (hc' : s0'.conns = []) (hs' : s0'.socks = []) (fd fd' : Nat)
+    (c c' : Conn) (v v' : VSock) (hl : liveTcp t fd c v) (hl' : liveTcp t' fd' c' v') (hst : v.stream = v'.stream)
+    (hsp : v.spos = v'.spos) : logOn l fd = logOn l' fd' := by
+  rw [(read_segmentation_invariance_run hr hc hs fd c v hl).2.1,
+    (read_segmentation_invariance_run hr' hc' hs' fd' c' v' hl').2.1, hst, hsp]
+
+/-! ### non-vacuity: the model run above as a `RunH`, read in one piece and in two pieces split inside a message -/
+
+theorem top_send (a : Option Nat) (b d : Bool) (e : ReqSpec) (f : Owner) (g : List Nat) :
+    (Call.sendNolock a b d e f g).top := ⟨(fun _ h => by cases h), (fun _ _ h => by cases h)⟩
+theorem top_write (fd : Nat) : (Call.processWrite fd).top := ⟨(fun _ h => by cases h), (fun _ _ h => by cases h)⟩
+theorem top_read (fd : Nat) : (Call.processRead fd).top := ⟨(fun _ h => by cases h), (fun _ _ h => by cases h)⟩
+
+def u1 : St := (execH 50 (.sendNolock none false false { name := "", qtype := 1 } (.user 1) []) t0).1.1
+def u2 : St := (execH 50 (.sendNolock none false false { name := "", qtype := 1 } (.user 2) []) u1).1.1
+def u3 : St := (execH 50 (.processWrite 100) u2).1.1
+/-- the server answers both queries (two `peer` steps); the script sets the read sizes (an `other` step) -/
+def u4 (chunks : List Nat) : St :=
+  ((u3.modSock 100 (peerWrite r7)).modSock 100 (peerWrite r8)).modSock 100 fun v => { v with chunks := chunks }
+def u5 (chunks : List Nat) : St := (execH 50 (.processRead 100) (u4 chunks)).1.1
+def u6 (chunks : List Nat) : St := (execH 50 (.processRead 100) (u5 chunks)).1.1
+
+theorem u_fuel : u1.outOfFuel = false ∧ u2.outOfFuel = false ∧ u3.outOfFuel = false ∧ (u5 []).outOfFuel = false ∧
+    (u5 [33, 41]).outOfFuel = false ∧ (u6 [33, 41]).outOfFuel = false := by decide
+
+/-- the log up to the server's answers: two sends and a write (nothing is handed to `process_answer`) -/
+def lg3 : HLog :=
+  (([] ++ (execH 50 (.sendNolock none false false { name := "", qtype := 1 } (.user 1) []) t0).2) ++
+    (execH 50 (.sendNolock none false false { name := "", qtype := 1 } (.user 2) []) u1).2) ++
+    (execH 50 (.processWrite 100) u2).2
+
+theorem run_to_u3 : RunH t0 u3 lg3 :=
+  (((RunH.nil t0).call 50 _ (top_send ..) u_fuel.1).call 50 _ (top_send ..) u_fuel.2.1).call 50 _ (top_write 100)
+    u_fuel.2.2.1
+
+theorem run_to_u4 (chunks : List Nat) : RunH t0 (u4 chunks) lg3 := by
+  have r1 : RunH t0 (u3.modSock 100 (peerWrite r7)) lg3 := run_to_u3.env (.peer u3 100 r7)
+  have r2 : RunH t0 ((u3.modSock 100 (peerWrite r7)).modSock 100 (peerWrite r8)) lg3 := r1.env (.peer _ 100 r8)
+  refine r2.env (.other _ (u4 chunks) ?_ ?_ ?_)
+  · simp only [u4, chan_frame]
+  · unfold u4; exact vks_modSock_id _ _ _ (fun _ => rfl)
+  · simp only [u4, chan_frame]
+
+/-- one read of everything -/
+theorem run_once : RunH t0 (u5 []) (lg3 ++ (execH 50 (.processRead 100) (u4 [])).2) :=
+  (run_to_u4 []).call 50 _ (top_read 100) u_fuel.2.2.2.1
+/-- two reads, 33 and 41 bytes: the first ends one byte inside the second message -/
+theorem run_twice : RunH t0 (u6 [33, 41])
+    ((lg3 ++ (execH 50 (.processRead 100) (u4 [33, 41])).2) ++ (execH 50 (.processRead 100) (u5 [33, 41])).2) :=
+  ((run_to_u4 [33, 41]).call 50 _ (top_read 100) u_fuel.2.2.2.2.1).call 50 _ (top_read 100) u_fuel.2.2.2.2.2
+
+/-- the first read of the second run hands over the first message only, the second read the second one … -/
+example : (execH 50 (.processRead 100) (u4 [33, 41])).2 = [(100, r7)] ∧
+    (execH 50 (.processRead 100) (u5 [33, 41])).2 = [(100, r8)] ∧
+    (execH 50 (.processRead 100) (u4 [])).2 = [(100, r7), (100, r8)] := by decide
+/-- … the connection is live at the end of both runs, with all 74 bytes of the same stream read … -/
+example : ((u6 [33, 41]).conn? 100).map (fun c => (c.tcp, c.unlinked, c.inBytes)) = some (true, false, 0) ∧
+    ((u5 []).conn? 100).map (fun c => (c.tcp, c.unlinked, c.inBytes)) = some (true, false, 0) ∧
+    ((u6 [33, 41]).sock? 100).map (fun v => (v.stream, v.spos)) = some ([(32, r7), (74, r8)], 74) ∧
+    ((u5 []).sock? 100).map (fun v => (v.stream, v.spos)) = some ([(32, r7), (74, r8)], 74) := by decide
+/-- … so the theorem applies to both and says what the runs show: `[r7, r8]` either way -/
+example (c : Conn) (v : VSock) (h : liveTcp (u6 [33, 41]) 100 c v) :
+    logOn ((lg3 ++ (execH 50 (.processRead 100) (u4 [33, 41])).2) ++ (execH 50 (.processRead 100) (u5 [33, 41])).2) 100 =
+      arrived v.stream v.spos :=
+  (read_segmentation_invariance_run run_twice rfl rfl 100 c v h).2.1
+example : logOn ((lg3 ++ (execH 50 (.processRead 100) (u4 [33, 41])).2) ++ (execH 50 (.processRead 100) (u5 [33, 41])).2) 100 =
+    [r7, r8] ∧ logOn (lg3 ++ (execH 50 (.processRead 100) (u4 [])).2) 100 = [r7, r8] ∧
+    arrived [(32, r7), (74, r8)] 74 = [r7, r8] := by decide
+/-- the invariant holds along the run (through the theorems, so their hypotheses are satisfiable) -/
+example : Aligned (u6 [33, 41]) := (run_twice.inv (RunInv.init t0 rfl rfl)).al
+example : Aligned t0 := aligned_initially t0 rfl rfl
 
 end Cares.C20
